@@ -46,7 +46,7 @@ def jsonOp (toks : List String) : Option String :=
     let (c, pk, d, st) ← runP (do let c ← pContext; let pk ← pABuf; let d ← pDir; let st ← pStrategy; pEnd; pure (c, pk, d, st)) rest
     let run (c : Context) : String :=
       let r : Py (ABuf × ABuf) := do
-        let ps ← factory c.parserId; let s ← managerCompress ps c.ruleset pk d st; let dd ← managerDecompress c.ruleset s; pure (s, dd)
+        let ps ← factory c.parserId; let s ← managerCompress ps c.ruleset pk d st; let dd ← managerDecompressG c.ruleset s; pure (s, dd)
       showPy (fun (s, dd) => s!"{showABuf s},{showABuf dd}") r
     let reloaded := match Context.fromJson c.toJson with
       | .ok c' => run c'
